@@ -6,6 +6,7 @@
 import FianoModel.Uefi.SizeLemmas
 
 namespace Fiano.Uefi
+open EditArith
 open Fiano
 
 theorem repointFr_same (tbl : List FlashRegion) (nr : Nat) (i : Nat) (fr : FlashRegion)
